@@ -771,6 +771,11 @@ def witness_and_replay1(name, tier, workdir, cfg, failed, pid, extra_defs=(), ta
     wbin = None
     wuw = []
     try:
+        if not u["native"] and not os.environ.get("VERIF_WITNESS_ALL"):
+            # units without a native replay (ghost-stubbed callees): the violation is reported with the failed obligation and
+            # the verifier output only (no-failing-input-found); the second, witness-mode verification run is skipped - for the
+            # slow bounded units it doubled a 5 minute check (set VERIF_WITNESS_ALL=1 to get the concrete inputs in the replay file)
+            raise ToolError("witness search skipped")
         wbin, wuw, _ = build_unit(u, tier, workdir, cfg, list(extra_defs) + ["-DVERIF_WITNESS"] + u["witness_defs"], tag=tagx)
         cmd, rc, out, err, wall = run_cbmc(u, wbin, wuw, timeout=u["timeout"])
         res, _, _, _ = parse_cbmc_json(out)
